@@ -896,6 +896,12 @@ variant('b-websocket-parses-with-prefix', ['C04'], 'rsocket/transports/aiohttp_w
         "                async for frame in self._frame_parser.receive_data(message):", ('C04.f', 'TransportAioHttpWebsocket'))
 variant('b-parser-empty-message-loop', ['C04', 'C12'], FP,
         "        if len(data) == 0:\n            return\n\n", "", ('C12.e', 'prefix size 0'))
+variant('b-parser-guard-waits-for-a-header', ['C04'], FP,
+        "        while total >= frame_length_byte_count:",
+        "        while total >= frame_length_byte_count + 6:", ('C04.a', 'takes every buffered frame (prefix size 0)'))
+variant('t-parser-guard-strict-form', ['C04', 'C12'], FP,
+        "        while total >= frame_length_byte_count:",
+        "        while total > frame_length_byte_count - 1:", kind='twin')
 variant('t-parser-named-extent', ['C04', 'C12'], FP,
         """            if total < length + frame_length_byte_count:
                 return
@@ -1381,6 +1387,43 @@ variant_multi('t-collector-parameters-swapped-keyword-site', ['C06', 'C01'], [
      "                              sending_done: Optional[asyncio.Event] = None) -> List[Payload]:\n        subscriber = CollectorSubscriber(limit_rate)",
      "                              sending_done: Optional[asyncio.Event] = None) -> List[Payload]:\n        subscriber = CollectorSubscriber(limit_rate=limit_rate)")],
     kind='twin')
+variant('b-fragmenter-framing-mode-dropped', ['C03'], F,
+        "                self.fragment_size_bytes,\n                requires_length_header\n            )",
+        "                self.fragment_size_bytes\n            )", ('C03.i', 'get_next_fragment'))
+variant('b-sender-assumes-length-prefix', ['C03'], RB,
+        "            next_fragment = next_frame_source.get_next_fragment(transport.requires_length_header())",
+        "            next_fragment = next_frame_source.get_next_fragment()", ('C03.i', 'callers of get_next_fragment'))
+variant('t-fragmenter-call-by-keyword', ['C03'], F,
+        "                self.data,\n                self.metadata,\n                get_header_length(self),\n                self.fragment_size_bytes,\n                requires_length_header\n            )",
+        "                data=self.data,\n                metadata=self.metadata,\n                fragment_size_bytes=self.fragment_size_bytes,\n                first_frame_header_size=get_header_length(self),\n                frame_length_required=requires_length_header\n            )",
+        kind='twin')
+AIO = 'rsocket/transports/aiohttp_websocket.py'
+variant('b-ws-server-loop-end-unsignalled', ['C11'], AIO,
+        "            logger().debug('Asyncio task canceled: aiohttp_handle_incoming_ws_messages')\n        finally:\n            self._incoming_frame_queue.put_nowait(RSocketTransportError())\n",
+        "            logger().debug('Asyncio task canceled: aiohttp_handle_incoming_ws_messages')\n",
+        ('C11.k', 'TransportAioHttpWebsocket.handle_incoming_ws_messages'))
+variant('b-ws-client-orderly-close-unsignalled', ['C11'], AIO,
+        "        finally:\n            # the receiver learns that no more frames will arrive, however the websocket ended\n            self._incoming_frame_queue.put_nowait(RSocketTransportError())\n",
+        "", ('C11.k', 'TransportAioHttpClient.handle_incoming_ws_messages / normal end'))
+variant('b-channels-disconnect-unsignalled', ['C11'], 'rsocket/transports/channels_transport.py',
+        "            self.transport._incoming_frame_queue.put_nowait(RSocketTransportError())\n", "",
+        ('C11.k', 'AsyncRSocketConsumer.receive'))
+variant('b-ws-signal-only-on-error', ['C11'], 'rsocket/transports/websockets_transport.py',
+        "        finally:\n            self._incoming_frame_queue.put_nowait(RSocketTransportError())",
+        "        except Exception:\n            self._incoming_frame_queue.put_nowait(RSocketTransportError())",
+        ('C11.k', 'WebsocketsTransport.consumer_handler'))
+variant('t-ws-signal-spelled-out', ['C11'], 'rsocket/transports/websockets_transport.py',
+        "        finally:\n            self._incoming_frame_queue.put_nowait(RSocketTransportError())",
+        "        except BaseException:\n            self._incoming_frame_queue.put_nowait(RSocketTransportError())\n            raise\n        self._incoming_frame_queue.put_nowait(RSocketTransportError())",
+        kind='twin')
+variant('b-collector-cancels-on-completing-element', ['C08'], 'rsocket/awaitable/collector_subscriber.py',
+        "        if is_complete:\n            self.is_done.set()\n        elif self._limit_count is not None and self._limit_count == self._total_received_count:\n            self.subscription.cancel()\n            self.is_done.set()",
+        "        if self._limit_count is not None and self._limit_count == self._total_received_count:\n            self.subscription.cancel()\n            self.is_done.set()\n        elif is_complete:\n            self.is_done.set()",
+        ('C08.i', 'CollectorSubscriber.on_next'))
+variant('t-collector-early-return-on-complete', ['C08', 'C06'], 'rsocket/awaitable/collector_subscriber.py',
+        "        if is_complete:\n            self.is_done.set()\n        elif self._limit_count",
+        "        if is_complete:\n            self.is_done.set()\n            return\n        if self._limit_count",
+        kind='twin')
 variant('b-send-error-noop', ['C12'], RB,
         "        self.send_frame(exception_to_error_frame(stream_id, exception))",
         "        logger().error('error on stream %s: %s', stream_id, exception)", ('C12.b', 'RSocketBase.send_error'))
